@@ -106,7 +106,10 @@ def run_case(case):
     nq = 0
     with market.csv_dir(syms) as path:
         for adjust in (True, False):
-            ds = q.CSVDailyBarDataSource(path, q.Equity, adjust_prices=adjust, csv_symbols=list(syms))
+            if case.get('all_files'):
+                ds = q.CSVDailyBarDataSource(path, q.Equity, adjust_prices=adjust)          # every CSV of the directory
+            else:
+                ds = q.CSVDailyBarDataSource(path, q.Equity, adjust_prices=adjust, csv_symbols=list(syms))
             dh = q.BacktestDataHandler(None, data_sources=[ds])
             for name, rows in syms.items():
                 a = 'EQ:' + name
@@ -190,6 +193,8 @@ def run_case(case):
         cls.add('future_rewritten_' + case['cut_mode'])
     for k in case.get('flags', []):
         cls.add(k)
+    if case.get('all_files'):
+        cls.add('all_files_of_directory')
     cls.add('symbols_%d' % len(syms))
     return Result(sorted(cls), nontrivial=nt > 0 and changed, info={'queries': nq, 'nontrivial_queries': nt})
 
@@ -234,7 +239,8 @@ def cases(draw):
         qs.append([d.year, d.month, d.day] + list(tod))
     cut = draw(st.sampled_from(qs))
     return {'symbols': syms, 'queries': qs, 'cut': cut, 'cut_mode': draw(st.sampled_from(['rewrite', 'delete', 'mix'])),
-            'cut_seed': draw(st.integers(0, 1000)), 'cut_adjust': draw(st.booleans()), 'flags': flags}
+            'cut_seed': draw(st.integers(0, 1000)), 'cut_adjust': draw(st.booleans()), 'flags': flags,
+            'all_files': draw(st.sampled_from([False, False, True]))}
 
 
 PARTS = [
